@@ -92,7 +92,9 @@ def run(ctx):
             binary = bool(E and E.binary)
             X, y, y_true, classes, labeling = R.gen_data(rng, task, n=int(rng.integers(7, 11)), binary=binary, cold="half")
             seed = int(rng.integers(0, 1000))
-            qs = mk(classes, seed)
+            # random_state as an integer, or as a caller-owned RandomState INSTANCE (a constructor parameter like any other: a query
+            # must not advance it)
+            qs = mk(classes, np.random.RandomState(seed) if h % 4 == 1 else seed)
             kwargs = kw(classes, seed)
             sig = inspect.signature(qs.query).parameters
             if "sample_weight" in sig and h % 2 == 1:
